@@ -99,16 +99,16 @@ func shallow(es []model.Entry) []model.Entry {
 type Options struct {
 	Relaxed    bool // non-minimal heads, NaN/Inf, duplicate keys tolerated
 	AllowLinks bool
-	MaxDepth   int // 0 = 1024
+	MaxDepth   int  // 0 = 1024
 	NotToEnd   bool // DontParseBeyondEnd: trailing bytes tolerated
 }
 
 type dec struct {
-	b    []byte
-	pos  int
-	opt  Options
-	max  int
-	why  string
+	b   []byte
+	pos int
+	opt Options
+	max int
+	why string
 	// Counters for the allocation model (C10): items and content bytes.
 	Items int64
 }
